@@ -64,3 +64,5 @@ M("c11-notify-collect-never-woken", "C11", SYNC, "Condition.notify", _NOTIFY_OLD
 
 # from seeded change C11/g (round 4)
 M("c11-taskinfo-equality-includes-parent", "C11", "_core/_testing.py", "TaskInfo.__eq__", "            return self.id == other.id", "            return (self.id, self.parent_id) == (other.id, other.parent_id)", ["R11-g"])
+N("c11-n-taskinfo-eq-written-out", "C11", "_core/_testing.py", "TaskInfo.__eq__", "            return self.id == other.id", "            if other.id == self.id:\n                return True\n\n            return False")
+M("c11-taskinfo-eq-written-out-inverted", "C11", "_core/_testing.py", "TaskInfo.__eq__", "            return self.id == other.id", "            if other.id == self.id:\n                return False\n\n            return True", ["R11-g"])
